@@ -176,13 +176,13 @@ def run(pid, tier, seed):
     for m, n in ([(60, 90), (120, 150), (150, 220)] if quick else [(60, 90)] * 12 + [(120, 150)] * 10 + [(150, 220)] * 8 + [(300, 400)] * 4):
         base.append(("big %dx%d" % (m, n), big_lp(rng, m, n)))
     # boxed variables entering without a blocking row (bound flips): the path where UNBOUNDED is decided by floating point alone
-    for _ in range(40 if quick else 700):
+    for _ in range(90 if quick else 900):
         base.append(("boxed", gen.random_lp(rng, m=rng.rint(8, 16), n=rng.rint(10, 22), dens=0.3, shapes=["box", "box", "default", "box"], senses="LLGE")))
     base = [(k, lp) for k, lp in base if wf(lp) and lp.cols]
     jobs = []
     for kind, lp in base:
         r = rng.fork("ops" + lp.line()[:300])
-        for _ in range(1 if kind.startswith("big") or quick else 3):
+        for _ in range(1 if kind.startswith("big") else (2 if quick and kind == "boxed" else 1 if quick else 3)):
             ops, lp2, a, b = gen_ops(r, lp, r.rint(1, 5))
             if lp.rows and r.chance(0.25):
                 # appended rows only (singleton / short rows too): the transformed problem is then built by API edits of the original
